@@ -272,6 +272,7 @@ class Renderer:
         for d in rec.rw:
             self.rw.setdefault(d[0], []).append(d[1:])
         self.synth_loops = 0
+        self.plain = getattr(ctx, "plain", False)   # plain Rust (rewrite round trip): no Verus-only syntax, no stub paths
         self.moved_generics, self.moved_where = [], ""
         if fn.impl is not None and "trait" in fn.impl and fn.impl.get("generics_text"):
             # R10: impl parameters that only the trait mentions (PartialEq<Store<I, P2, H2>>) become
@@ -562,7 +563,7 @@ class Renderer:
                 out += self.render_block(els["c"][0], self.stmt_text("if", k, "else_entry"), self.stmt_text("if", k, "else_exit"))
             else:
                 out += self.render(els)
-        return out
+        return out + self.stmt_text("if", k, "after")
 
     # -- R8: E?  ->  match E { Ok(v) => v, Err(e) => return Err(From::from(e)) }
     def r_Try(self, n):
@@ -667,7 +668,7 @@ class Renderer:
             a1 = compact(self.t(args[0]["s"], args[0]["e"]))
             inner_args = [self.find(recv, a) for a in recv["args"]]
             a0 = compact(self.t(inner_args[0]["s"], inner_args[0]["e"])) if inner_args else ""
-            if a0 == "|(i,p)|(ias*mutI,pas*mutP)" and a1 == "|(i,p)|unsafe{(i.as_mut().unwrap(),p.as_mut().unwrap())}":
+            if not self.plain and a0 == "|(i,p)|(ias*mutI,pas*mutP)" and a1 == "|(i,p)|unsafe{(i.as_mut().unwrap(),p.as_mut().unwrap())}":
                 self.log.append("R6 raw-pointer reborrow chain -> __launder (trusted identity)")
                 base = self.find(recv, recv["receiver"])
                 return "crate::__launder(%s)" % self.render(base)
@@ -778,7 +779,7 @@ class Renderer:
                 vty = ": " + " ".join(d[1:])
         if RANGE_FOR.match(self.t(base["s"], base["e"]).strip()):
             return ("{ let mut __v%s = Vec::new();\n" % vty + self.stmt_text("loop", str(k), "before") + self.loop_attrs(k)
-                    + "for %s in __r%d: %s" % (pat, k, self.render(base)) + self.loop_spec(k)
+                    + ("for %s in %s" % (pat, self.render(base)) if self.plain else "for %s in __r%d: %s" % (pat, k, self.render(base))) + self.loop_spec(k)
                     + "{" + self.stmt_text("loop", str(k), "body_entry") + " __v.push(%s);" % val
                     + self.stmt_text("loop", str(k), "body_exit") + "}\n"
                     + self.stmt_text("loop", str(k), "after") + " __v }")
@@ -840,6 +841,16 @@ class Renderer:
                     if not txt.endswith(","):
                         txt += ","
                     spec += self.mark(s, txt) + "\n"
+        if getattr(self, "plain", False):
+            # rewrite round trip: the function as it stands in the source, with only the body (and `mut self`) rewritten
+            body = self.block_of(node["tree"], node["body"])
+            btxt = self.render_block(body, body_pre, "")
+            if self.self_name != "self":
+                btxt = re.sub(r"\bself\b", "this", btxt).replace("let mut this = this;", "let mut this = self;", 1)
+            sig = self.t(node["fn_token"][0] if "fn_token" in node else sig_a, node["body"][0])
+            if self.self_name != "self":
+                sig = sig.replace("mut self", "self", 1)
+            return sig, btxt
         if stub_body:
             attrs = "#[verifier::external_body]\n"
             text = "%spub %s%s%s%s%s\n{ unimplemented!() }" % (attrs, head, params, tail, where, spec)
@@ -879,6 +890,8 @@ class Renderer:
 # ----------------------------------------------------------------------------- context / assembly
 
 class Ctx:
+    plain = False
+
     def __init__(self):
         self.clauses = {}
         self.probe = False
